@@ -809,7 +809,11 @@ impl<F: Fam> Ctx<F> {
                 // leave elements behind, but cannot over-read), the history goes on, so that the
                 // consequences owned by that property (lost elements, short iterators, leaks) can
                 // show; the desync itself is C05's to report.
-                let soft = matches!(self.focus, Some(p) if p != C05 && p != C07) && o.cursor_remaining < o.len && !self.post_fault;
+                // (for C06 also when it is ahead: the double drops that follow are what C06 owns, the
+                // element types guard their own memory, and a crash of the worker counts for C06)
+                let soft = matches!(self.focus, Some(p) if p != C05 && p != C07)
+                    && (o.cursor_remaining < o.len || self.focus == Some(C06))
+                    && !self.post_fault;
                 if soft {
                     self.stats.soft_cursor_desync += 1;
                 } else {
@@ -835,8 +839,10 @@ impl<F: Fam> Ctx<F> {
                 if pre.len >= if self.big { 100_000 } else { 1_000 } {
                     self.nt(C02);
                 }
-                // ---- C04: no allocation while elements wait in the old table
-                if obs.alloc.allocs != 0 {
+                // ---- C04: no allocation while elements wait in the old table (a chain that inserts
+                // twice may finish the move with its first insertion and grow with its second)
+                let finished_by_earlier_adds = f.adds >= 2 && l0.saturating_sub(f.removed_from_old) <= self.r * (f.adds - 1);
+                if obs.alloc.allocs != 0 && !finished_by_earlier_adds {
                     fail!(self, [C04, C02], "alloc-during-resize",
                         "key-adding call allocated {} time(s) while {} elements were still in the old table",
                         obs.alloc.allocs, l0);
@@ -857,7 +863,8 @@ impl<F: Fam> Ctx<F> {
             let mut pre_old = pre.hook.old;
             if let Some(o) = pre_old {
                 if key_adding && !f.clears && removed <= o.len && o.len - removed == 0 && matches!(f.kind, Kind::Point) {
-                    let still_same = post.hook.old.map_or(false, |po| po.buckets == o.buckets);
+                    // (an emptied table cannot gain elements: one that holds some is a new old table)
+                let still_same = post.hook.old.map_or(false, |po| po.buckets == o.buckets && po.len == 0);
                     if !still_same {
                         if removed > 0 {
                             self.meta[s].emptied_by_removal = true;
@@ -867,7 +874,19 @@ impl<F: Fam> Ctx<F> {
                     }
                 }
             }
+            // a chain that inserts twice and grew on the way: the old table it started with (if any)
+            // was finished and replaced inside the call; the quota cannot be predicted from outside
+            let regrew_in_chain = f.adds >= 2 && obs.alloc.allocs > 0 && key_adding;
             match f.kind {
+                Kind::Point | Kind::Bulk if regrew_in_chain => {
+                    if pre.old_present() {
+                        self.episode_end(s, 0);
+                    }
+                    self.meta[s].episode = None;
+                    if post.old_present() {
+                        self.episode_start(s, post.l(), 1);
+                    }
+                }
                 Kind::Point | Kind::Bulk => {
                     if f.clears {
                         if post.old_present() {
@@ -1026,10 +1045,13 @@ impl<F: Fam> Ctx<F> {
                         let adds = f.adds.max(1);
                         let own_bound = 2 * adds;
                         let r = r * adds;
-                        let mut seen = BTreeSet::new();
+                        // each other object is re-hashed at most once per insertion the call made
+                        let mut seen: BTreeMap<(u32, u32), usize> = BTreeMap::new();
                         let mut dup = None;
                         for h in &others {
-                            if !seen.insert(**h) {
+                            let c = seen.entry(**h).or_insert(0);
+                            *c += 1;
+                            if *c > adds {
                                 dup = Some(**h);
                             }
                         }
